@@ -18,7 +18,7 @@ import vlib
 LEVEL = "proof"
 PID = "C12"
 QUICK = {"cases": 1152, "shards": 8}
-THOROUGH = {"cases": 9600, "shards": 16}
+THOROUGH = {"cases": 38400, "shards": 32}
 BOOLS = ["allow_compressed_keys", "allow_duplicate_keys", "allow_dup_if", "allow_malleability", "allow_multi",
          "allow_multi_a", "allow_mixed_time_locks", "allow_or_i", "allow_raw_pkh", "allow_sigless_branch", "allow_non_b",
          "allow_uncompressed_keys", "allow_unsatisfiable", "allow_x_only_keys", "allow_inconsistent_multipath_keys"]
@@ -78,13 +78,28 @@ def check_params(rep, hbin, seed):
         raise RuntimeError("validate params failed: " + p.stderr[-2000:])
     text = open(gen).read()
     nrows = int(re.search(r"g_nrows : N := (\d+)", text).group(1))
+    nprims = int(re.search(r"g_nprims : N := (\d+)", text).group(1))
     for f in ("Tables/ParamTablesGen.v", "Tables/ParamTablesDefs.v", "Tables/ParamTablesConsts.v"):
         c = coqc(f)
         if c.returncode != 0:
             raise RuntimeError("%s does not compile: %s" % (f, (c.stderr or c.stdout)[-2000:]))
     c = coqc("Tables/ParamTablesCheck.v")
     ok = c.returncode == 0
-    info = {"constants_compared": 11, "lattice_rows_compared_in_coq": nrows, "differing_constants": [], "differing_rows": 0}
+    info = {"constants_compared": 11, "lattice_rows_compared_in_coq": nrows, "primitive_rows_compared_in_coq": nprims,
+            "differing_constants": [], "differing_rows": 0, "differing_primitive_rows": 0}
+    # every u32 through AbsLockTime / RelLockTime::from_consensus against the specification's range (oracle, complete)
+    sw = vlib.sh([hbin, "validate", "locksweep"], timeout=900)
+    try:
+        sweep = json.loads(sw.stdout.strip().splitlines()[-1])
+    except (ValueError, IndexError):
+        raise RuntimeError("validate locksweep failed: " + sw.stderr[-1000:])
+    info["lock_values_swept"] = sweep["swept"]
+    if sweep["bad_abs"] or sweep["bad_rel"]:
+        which, n = sweep["first"]
+        rep.violation("lock-range", "%s(%d) is %s although the range is 1 <= n < 2^31 (%d absolute / %d relative values misjudged)" %
+                      (which, n, "accepted" if not (1 <= n < 2 ** 31) else "rejected", sweep["bad_abs"], sweep["bad_rel"]),
+                      {"property": PID, "function": "AbsLockTime/RelLockTime::from_consensus", "fragment": which, "input": n,
+                       "failed_clause": "time locks in range"}, found_input=True)
     if ok:
         return True, info, text
     # ---- on-break protocol: locate, then judge the implementation's own answers by the lattice laws
@@ -126,7 +141,25 @@ def check_params(rep, hbin, seed):
                           {"property": PID, "function": "ValidationParams::entails", "a": named(pa), "b": named(pb),
                            "implementation": ent, "fieldwise_le": leq(pa, pb), "failed_clause": "lattice: entails p q <-> p <= q",
                            "broken_tie": "lattice_rows_match_model"}, found_input=(ent != leq(pa, pb)))
-    if not bad_consts and not rows:
+    # primitive constructors (second Eval of the diagnosis file)
+    pm = re.search(r"=\s*\(\[([^\]]*)\],\s*\[([^\]]*)\]\)\s*:\s*list \(N \* N \* N\) \* list N", dtext)
+    prim_bad = 0
+    if pm:
+        for mm, kk, nn in re.findall(r"\((\d+), (\d+), (\d+)\)", pm.group(1)):
+            mm, kk, nn = int(mm), int(kk), int(nn)
+            prim_bad += 1
+            spec_ok = 1 <= kk <= nn and (mm == 0 or nn <= mm)
+            rep.violation("threshold-range", "Threshold::<_, %d>::new(%d, %d items) is %s; the range is 1 <= k <= n%s" %
+                          (mm, kk, nn, "rejected" if spec_ok else "accepted", "" if mm == 0 else " <= %d" % mm),
+                          {"property": PID, "function": "Threshold::new", "MAX": mm, "k": kk, "n": nn, "failed_clause": "thresholds in range",
+                           "broken_tie": "primitives_match_model"}, found_input=True)
+        for nn in [int(x) for x in pm.group(2).split(";") if x.strip()]:
+            prim_bad += 1
+            rep.violation("lock-range-table", "lock constructors differ from the model at %d" % nn,
+                          {"property": PID, "function": "AbsLockTime/RelLockTime::from_consensus", "input": nn,
+                           "broken_tie": "primitives_match_model"}, found_input=not (sweep["bad_abs"] == 0 and sweep["bad_rel"] == 0))
+    info["differing_primitive_rows"] = prim_bad
+    if not bad_consts and not rows and not prim_bad:
         rep.violation("params-unknown", "ParamTablesCheck.v fails: " + (c.stderr or c.stdout)[-800:],
                       {"property": PID, "broken_tie": "Tables/ParamTablesCheck.v"}, found_input=False)
     return False, info, text
@@ -332,8 +365,17 @@ def run(rep, tier, seed, replay):
                                   {"property": PID, "broken_tie": "cases_match_model (Tables/ValidateCasesCheck.v)", "seed": seed, "case": cid,
                                    "context": r.get("ctx"), "input": r.get("string"), "call": what, "implementation_observation": CODES.get(impl, impl),
                                    "model_observation": CODES.get(model, model), "calls_in_group": len(items)}, found_input=False)
-    obligations = len(thms) + 3
-    discharged = (len(thms) if ok else 0) + (2 if params_ok else 0) + (1 if tie_ok else 0)
+    chk_ok = True
+    if tier == "thorough":
+        ck = vlib.sh(["timeout", "1500", "coqchk", "-silent", "-Q", "Ms", "Verif", "-Q", "Proofs", "Verif", "-Q", "Properties", "Verif", "Verif.C12"],
+                     cwd=vlib.COQ, timeout=1600, stack_unlimited=True)
+        chk_ok = ck.returncode == 0
+        rep.coverage["coqchk"] = "ok" if chk_ok else (ck.stderr or ck.stdout)[-500:]
+        if not chk_ok:
+            rep.violation("coqchk", "coqchk rejects Properties/C12.vo: " + (ck.stderr or ck.stdout)[-500:],
+                          {"property": PID, "broken_tie": "coqchk Verif.C12"}, found_input=False)
+    obligations = len(thms) + 4
+    discharged = (len(thms) if ok and chk_ok else 0) + (3 if params_ok else 0) + (1 if tie_ok else 0)
     parsed = [r for r in all_rows if r.get("parsed")]
     samples = []
     for r in all_rows[:: max(1, len(all_rows) // 12)][:12]:
@@ -350,7 +392,7 @@ def run(rep, tier, seed, replay):
         "exhaustive_part": "ValidationParams constants (11, field by field) and intersect/entails on the generating set",
         "params": pinfo, "cases": len(all_rows), "cases_parsed": len(parsed), "calls_replayed_on_model_in_coq": calls,
         "differing_calls": n_diff, "class_only_differences_advisory": class_diffs,
-        "evaluations": calls + pinfo["lattice_rows_compared_in_coq"], "distinct_nontrivial": len({r.get("string") for r in all_rows}),
+        "evaluations": calls + pinfo["lattice_rows_compared_in_coq"] + pinfo["primitive_rows_compared_in_coq"], "distinct_nontrivial": len({r.get("string") for r in all_rows}),
         "rule": "24 recipes x 4 contexts (sane, each defect class, near-limit figures, boundary locks/thresholds, ill-typed) + corpus; "
                 "every entry point; parameter sets: MAX, SANE, CONSENSUS, MAX minus each switch, per context CONSENSUS/SANE and every "
                 "single flip of both, limits at figure-1/figure/figure+1",
